@@ -83,7 +83,15 @@ US9  == UStruct("US9", <<U32, Vec(SS5, U8)>>)                                \* 
 US10 == WithDefault(UStruct("US10", <<U8, U64, V_u8_u16>>), 1)               \* 7 bytes of interior padding, tail align 2 < 8
 PE16 == Portable(UEnum("PE16", 2, << <<>>, <<LeU16, Vec(U8, LeU16)>> >>))    \* known-bad: portable enum with a 2-byte native tag (finding #13)
 PS32 == Portable(Enum("PS32", 4, << <<>>, <<LeU32>> >>))                     \* known-bad: sized portable enum with a 4-byte tag
-V_unit_u8 == Vec(Unit, U8)                                                   \* zero-sized elements
+V_unit_u8 == Vec(Unit, U8)
+SS7  == Portable(Struct("SS7", <<BeI16, LeI64, BeI64, LeI32, BeF64>>))          \* signed big-endian scalars (byte order of negative values)
+US11 == UStruct("US11", <<U8, U32, U8, V_u8_u8>>)                              \* four fields: padding that no later field re-absorbs
+UE15 == UEnum("UE15", 1, << <<V_u8_u16>>, <<U32, V_u8_u8>>, <<U16>> >>)         \* two unsized variants whose headers overlap
+UE16 == WithDefault(UEnum("UE16", 1, << <<U32>>, <<V_u8_u8>>, <<>> >>), 3)      \* the #[default] unit variant is declared last
+PE1  == Portable(UEnum("PE1", 1, << <<>>, <<U8, LeU16, Vec(U8, LeU16)>>, <<U8, LeU32, LeU16, Arr(U8, 3)>> >>))   \* packed fields at odd offsets
+V_u16_u64 == Vec(U16, U64)                                                     \* usize-wide length types
+S_u64     == Str(U64)
+X_u8_u64  == Flex(U8, U64)                                                   \* zero-sized elements
 
 US5 == UStruct("US5", <<U8, UE1>>)
 X_us2_u16 == Flex(US2, U16)
@@ -121,7 +129,9 @@ Core == <<
   C("US1", US1), C("US2", US2), C("US3", US3), C("US4", US4), C("US5", US5), C("US6", US6), C("US7", US7), C("US8", US8),
   C("UE1", UE1), C("UE2", UE2), C("UE3", UE3), C("UE4", UE4), C("UE5", UE5), C("UE6", UE6), C("UE7", UE7),
   C("UE8", UE8), C("UE9", UE9), C("UE10", UE10), C("UE11", UE11), C("UE12", UE12), C("UE13", UE13), C("UE14", UE14),
-  C("US9", US9), C("US10", US10), C("PE16", PE16), C("PS32", PS32), C("V_unit_u8", V_unit_u8)
+  C("US9", US9), C("US10", US10), C("PE16", PE16), C("PS32", PS32), C("V_unit_u8", V_unit_u8),
+  C("SS7", SS7), C("US11", US11), C("UE15", UE15), C("UE16", UE16), C("PE1", PE1),
+  C("V_u16_u64", V_u16_u64), C("S_u64", S_u64), C("X_u8_u64", X_u8_u64)
 >>
 
 (***************************************************************************)
@@ -146,7 +156,17 @@ SweepSized == [n \in 1..16 |->
                    LET i == ((n - 1) \div 4) + 1  j == ((n - 1) % 4) + 1 IN
                    C(SwName("WT", i, j, 0), WithDefault(IF (i + j) % 2 = 0 THEN Tuple(Struct(SwName("WT", i, j, 0), <<SwF[i], BoolT, SwF[j]>>))
                                                                             ELSE Struct(SwName("WT", i, j, 0), <<SwF[i], BoolT, SwF[j]>>), 1))]
-Sweep == SweepStructs \o SweepEnums \o SweepSized
+\* unsized enums { (a, tail), (b, c, tail'), unit } with the #[default] on the last (unit) variant: 3 x 3 x 3
+SweepEnums2 == [n \in 1..27 |->
+                   LET i == ((n - 1) \div 9) + 1  j == (((n - 1) \div 3) % 3) + 1  k == ((n - 1) % 3) + 1 IN
+                   C(SwName("WF", i, j, k), WithDefault(UEnum(SwName("WF", i, j, k), 1,
+                        << <<SwF[i], SwTail[3]>>, <<SwF[j], SwF[k], SwTail[1]>>, <<>> >>), 3))]
+\* unsized structs { a, b, c, tail } over the alignments 1, 4: 2 x 2 x 2 x 2
+SweepStructs4 == [n \in 1..16 |->
+                   LET i == ((n - 1) \div 8) + 1  j == (((n - 1) \div 4) % 2) + 1  k == (((n - 1) \div 2) % 2) + 1  m == ((n - 1) % 2) + 1
+                       f(x) == IF x = 1 THEN U8 ELSE U32 IN
+                   C(SwName("WQ", i, j, k) \o ToString(m), UStruct(SwName("WQ", i, j, k) \o ToString(m), <<f(i), f(j), f(k), SwTail[m]>>))]
+Sweep == SweepStructs \o SweepEnums \o SweepSized \o SweepEnums2 \o SweepStructs4
 CoreIds == {Core[i].id : i \in DOMAIN Core}
 Catalog == Core \o Sweep
 SweepIds == {Sweep[i].id : i \in DOMAIN Sweep}
